@@ -383,10 +383,10 @@ def tag_coh(case, f):
 
 
 SUBS = [
-    Sub('layout_diff', diff_cases(), check_diff, quick=2500, thorough=80000, tag=tag_diff,
+    Sub('layout_diff', diff_cases(), check_diff, quick=10000, thorough=80000, tag=tag_diff,
         rule='same columns, 3 layouts, one op: equal observations'),
-    Sub('astype_layouts', astype_cases(), check_astype, quick=800, thorough=24000,
+    Sub('astype_layouts', astype_cases(), check_astype, quick=3200, thorough=24000,
         rule='astype[key](dtype) over 4 layouts vs the per-column dtype/value model (keys with gaps inside wide blocks)'),
-    Sub('coherence', coh_cases(), check_coh, quick=600, thorough=16000, tag=tag_coh,
+    Sub('coherence', coh_cases(), check_coh, quick=2400, thorough=16000, tag=tag_coh,
         rule='every read route vs model cells and column dtypes'),
 ]
